@@ -29,7 +29,7 @@ func init() {
 			}
 			return 4
 		},
-		Cases:       func(r *obs.Run) int { return r.Share(r.Pick(12000, 320000)) },
+		Cases:       func(r *obs.Run) int { return r.Share(r.Pick(40000, 320000)) },
 		Case:        c06Case,
 		MinDistinct: func(t string) int { return 5000 },
 		Floors: func(string) map[string]int64 {
@@ -252,6 +252,18 @@ func c06Case(r *obs.Run, i int) {
 		if rng.Intn(3) == 0 && len(m.L) > 0 { // force inside
 			st = m.Off + rng.Intn(len(m.L)+1)
 			en = m.Off + rng.Intn(len(m.L)+1)
+		}
+		if rng.Intn(6) == 0 { // extreme coordinates: the range test must not go through an overflowing subtraction
+			ext := []int{math.MinInt64, math.MinInt64 + 1 + rng.Intn(40), math.MaxInt64 - rng.Intn(40), math.MaxInt64}
+			switch rng.Intn(3) {
+			case 0:
+				st = ext[rng.Intn(4)]
+			case 1:
+				en = ext[rng.Intn(4)]
+			default:
+				st, en = ext[rng.Intn(4)], ext[rng.Intn(4)]
+			}
+			r.Count("truncate_extreme_coordinates", 1)
 		}
 		w["start"], w["end"] = st, en
 		r.Count("truncate_calls", 1)
